@@ -76,6 +76,10 @@ def render_value(v, top=True):
     if t == "map":
         if not v["es"]:
             return "map.remove((k: 1), k)"
+        if v["s"] == "merge":       # the same map built step by step: null values arrive through map.merge
+            base = ", ".join(render_value(p["es"][0], False) + ": " + ("3" if p["es"][1]["t"] == "null" else render_value(p["es"][1], False)) for p in v["es"])
+            over = ", ".join(render_value(p["es"][0], False) + ": null" for p in v["es"] if p["es"][1]["t"] == "null")
+            return "map.merge((" + base + "), (" + over + "))" if over else "(" + base + ")"
         return "(" + ", ".join(render_value(p["es"][0], False) + ": " + render_value(p["es"][1], False) for p in v["es"]) + ")"
     raise ValueError(t)
 
@@ -91,14 +95,14 @@ class C12(VectorEngine):
     trace = ("Trace_Values", "Trace_Values.cfg")
     spec_op = "Values!ObservePair"
     rule = ("Flow A: every ordered pair of the value universe of MC_Values.tla (numbers incl. 0, -0, 1 and its ulp neighbours, unit variants, "
-            "NaN/infinities; strings in three quote styles; one color in five notations; lists; maps; booleans; null; function references). "
+            "NaN/infinities; strings in three quote styles; one color in five notations; lists incl. null elements; maps incl. reordered ones, equal-size maps differing in keys with null values (also built by map.merge), nested maps, list keys; booleans; null; function references). "
             "For each pair rsass evaluates a==b, b==a, a!=b, b!=a, a==a, b==b and, for two numbers, a<b, a>b; the booleans are compared with the "
             "reference relations Values!Eq/Lt wherever those are fixed, and every observation is additionally fed to the monitor Trace_Values.tla "
             "which checks the four laws of the property on the observed booleans. Flow B: seeded random pairs (same value, ulp steps of dyadic numbers "
             "incl. powers of two, unit conversions, re-quoted strings, re-notated colors, perturbed lists/maps, unrelated values) through the same monitor. "
             "non-trivial = the two values are not the same universe entry; distinct = distinct ordered pair.")
     assumptions = [
-        "the reference relations are three-valued: numbers a few ulps apart, unitless against an equal number with a unit, NaN against itself, [] against the empty map and maps equal up to order (C13) are not fixed and only the laws are checked there",
+        "the reference relations are three-valued: numbers a few ulps apart, unitless against an equal number with a unit, NaN against itself, and [] against the empty map are not fixed and only the laws are checked there",
         "trichotomy is claimed for finite numbers with the same or convertible units (Sass itself has 1 == 1px false with neither < nor >)",
         "numbers are written as repr(f64) literals, which rsass reads back exactly (str::parse::<f64>)",
         "under the open deviation numeq_relative_to_lhs the prediction is exact (|a-b| <= |a| * 2^-52 evaluated on exact decimal expansions) for numbers with the same unit",
@@ -266,7 +270,18 @@ class C12(VectorEngine):
 
         def mapv():
             keys = rng.sample(["a", "b", "c", "d"], rng.randint(0, 3))
-            return V("map", es=[V("pair", es=[V("str", s=k, n=rng.randint(0, 1)), atom_nonnull()]) for k in keys])
+            def val():
+                r = rng.random()
+                if r < 0.25:
+                    return V("null")
+                if r < 0.35:
+                    return V("map", es=[V("pair", es=[V("str", s=rng.choice(["p", "q"]), n=0), rng.choice([V("null"), V("num", n=1)])])])
+                return atom_nonnull()
+            def key(k):
+                if rng.random() < 0.1:
+                    return V("list", s=rng.choice(["space", "comma"]), n=0, es=[V("num", n=1), V("str", s=k, n=1)])
+                return V("str", s=k, n=rng.randint(0, 1))
+            return V("map", s="merge" if rng.random() < 0.3 else "", es=[V("pair", es=[key(k), val()]) for k in keys])
 
         def atom_nonnull():
             x = atom()
@@ -307,11 +322,18 @@ class C12(VectorEngine):
             if t == "map" and a["es"]:
                 es = [dict(p, es=[dict(p["es"][0]), dict(p["es"][1])]) for p in a["es"]]
                 r = rng.random()
-                if r < 0.4:
+                if r < 0.3:
                     i = rng.randrange(len(es))
                     es[i]["es"][1] = variant(es[i]["es"][1])
-                elif r < 0.7:
+                elif r < 0.5:
                     rng.shuffle(es)
+                elif r < 0.85:
+                    # same size, one key replaced by a fresh one; null on either side (a missing key is not a null value)
+                    i = rng.randrange(len(es))
+                    es[i]["es"][0] = V("str", s=rng.choice(["x", "y", "z"]), n=0)
+                    if rng.random() < 0.4:
+                        es[i]["es"][1] = V("null")
+                    return dict(a, es=es) if rng.random() < 0.5 else dict(a, s="merge" if a["s"] == "" else "", es=es)
                 return dict(a, es=es)
             return dict(a)
 
